@@ -244,7 +244,7 @@ func nonTrivialMore(prop string, w *model.World, out *model.Outcome, o *model.Ob
 	case "C18":
 		for _, t := range w.P.Types {
 			for _, cf := range t.Config {
-				if cf.Validate != "" || cf.Menu == "sum" || cf.Menu == "mul" || cf.Menu == "sumDef" {
+				if cf.Validate != "" || cf.Menu == "sum" || cf.Menu == "mul" || cf.Menu == "sumDef" || cf.Menu == "indirect" {
 					return true
 				}
 			}
